@@ -229,6 +229,29 @@ mod addrsort {
         }
     }
 
+    // ---- port.*: "position k is the old address with ONLY its port replaced": an IPv6 address carries more than ip and
+    // port - the scope id (zone) of a link-local address and the flow info.  A rewrite that rebuilds the address from
+    // (ip, port) turns `fe80::1%3` into the different address `fe80::1` (round 5, C16-r5m1) ----
+    #[test]
+    fn set_port_keeps_everything_but_the_port() {
+        use std::net::SocketAddrV6;
+        let scoped = SocketAddr::V6(SocketAddrV6::new("fe80::1".parse().unwrap(), 0, 0, 3));
+        let flowed = SocketAddr::V6(SocketAddrV6::new("2001:db8::7".parse().unwrap(), 1, 0x1234, 0));
+        let v4: SocketAddr = "192.0.2.1:9".parse().unwrap();
+        for port in [0u16, 443, 65535] {
+            let list = vec![v4, scoped, flowed, scoped];
+            let mut addrs = SocketAddrs::from_iter(list.iter().copied());
+            addrs.set_port(port);
+            let got = drain(addrs);
+            assert_eq!(got.len(), list.len());
+            for (g, l) in got.iter().zip(list.iter()) {
+                let mut want = *l;
+                want.set_port(port);
+                assert_eq!(*g, want, "set_port changed more than the port of {l:?}");
+            }
+        }
+    }
+
     // ---- conn.*: `TcpTransport::connecting` seen through the public `connect_to_addrs` (one attempt at a time, so the
     // address that is tried FIRST is the one that gets the connection) ----
     mod connecting {
